@@ -70,6 +70,11 @@ def setup():
 def corpus():
     return [
         F10_WITNESS,
+        # thorough seed 13: cycle through the root via `kids`, the root extended three times into its own list: the
+        # LIVE notifier list of container 100 grows to 137 entries during one dispatch (model fuel bound was len + 64)
+        "obs|5|N,N,N,N,N|setl 0 kids 100 [3];obs 10 0 t.kids.0.0 li.1.0 then t.kids.0.0 li.0.0 then then "
+        "t.kids.1.0 li.0.0 then then t.kids.1.0 li.1.0 then then t.value.1.0 then;setl 3 kids 102 [0];"
+        "le 100 [0,0,0];la 102 3",
         "obs|3|N,N,N|setl 0 kids 100 [1,2];obs 0 0 t.kids.1.0 li.1.0 then t.value.1.0 then;la 100 1;ld 100 0;ld 100 0",
         "obs|3|N,N,N|obs 0 0 t.kids.1.0 li.1.0 then t.kids.1.0 then li.1.0 then t.value.1.0 then;get 0 kids 100;la 100 0",
         "obs|3|N,N,N|obs 0 0 t.child.1.0 any.1 then;set 0 child 1;addt 1 extra 1;seti 1 extra 4",
